@@ -483,7 +483,19 @@ func runC13(c C13Case, cs *kit.CaseStats) (err error) {
 			}
 		}
 	}
-	if allTimeless && untouched && to.Height+1 >= allow {
+	// (an ephemeral siafund input carries a claim start taken from the basis;
+	// core does not verify it below the ephemeral-output hardfork height and
+	// computing the claim against a target with less revenue underflows - such
+	// sets are height dependent and left out of this clause)
+	claimOK := true
+	for k := range out {
+		for _, sfi := range out[k].SiafundInputs {
+			if sfi.Parent.ClaimStart.Cmp(to.Ledger.State.SiafundTaxRevenue) > 0 {
+				claimOK = false
+			}
+		}
+	}
+	if allTimeless && untouched && claimOK && to.Height+1 >= allow {
 		ms := consensus.NewMidState(to.Ledger.State)
 		for k := range out {
 			if verr := consensus.ValidateV2Transaction(ms, out[k]); verr != nil {
